@@ -13,6 +13,7 @@ package lanes
 
 import (
 	"fmt"
+	"go/constant"
 	"go/token"
 	"go/types"
 	"strings"
@@ -183,8 +184,8 @@ func width(t types.Type) int {
 func (r *Reader) eval(v ssa.Value, fr *rframe, depth int) Word {
 	switch x := v.(type) {
 	case *ssa.Const:
-		if x.Value == nil {
-			return unkWord()
+		if x.Value == nil || (x.Value.Kind() != constant.Int && x.Value.Kind() != constant.Float) {
+			return unkWord() // nil, or a string / float / complex constant: not a byte word
 		}
 		w := zeroWord()
 		u := x.Uint64()
@@ -274,7 +275,7 @@ func (r *Reader) eval(v ssa.Value, fr *rframe, depth int) Word {
 				c, ok = x.X.(*ssa.Const)
 				other = r.eval(x.Y, fr, depth)
 			}
-			if !ok || c.Value == nil {
+			if !ok || c.Value == nil || (c.Value.Kind() != constant.Int && c.Value.Kind() != constant.Float) {
 				return unkWord()
 			}
 			u := c.Uint64()
